@@ -49,6 +49,9 @@ def cases(tier, seed):
     from . import families
     for m in families.models(11):
         yield ('E', m)
+    from . import rt
+    for m in rt.collision_models():
+        yield ('E', m)
     F, R, M = sh.F, sh.R, sh.M
     for (g1, g2) in ((('a, b', 'c'), ('a', 'b, c')), (('a b', 'c'), ('a', 'b c')), (('ab', 'c'), ('a', 'bc')), (('a,b', 'c'), ('a', 'b,c')),
                      (('Slot1', 'Slot01'), ('Slot001', 'Slot10')), (('v2.0', 'v2.00'), ('v02.0', 'x')), (('A1', 'a1'), ('A01', 'a01'))):
@@ -344,6 +347,14 @@ def _use(fm):
     engine.tick(len(OPS) + 10)
 
 
+def _lower_ctcs(model):
+    def low(t):
+        if isinstance(t, tuple):
+            return (t[0], low(t[1]), low(t[2]))
+        return t.lower() if isinstance(t, str) else t
+    return sorted((repr(low(t)) for _n, t in model[1]))
+
+
 def _elements(fm):
     feats = {f.name: f for f in fm.get_features()}
     rels = {(r.parent.name, frozenset(c.name for c in r.children)): r for r in fm.get_relations()}
@@ -419,6 +430,8 @@ def check(case):
     for (ekind, em) in edits(model):
         if em == model:
             continue
+        if em[0] == model[0] and _lower_ctcs(em) == _lower_ctcs(model):
+            continue        # the constraints differ in letter case only: the statement exempts that
         fm3 = bd.build(em)
         engine.tick()
         sub = []
